@@ -170,29 +170,47 @@ class VState:
         return r
 
     def undo(self, t, conds):
-        """insert(k, v) then remove(k) on a map that did not have k, and push(c) then pop(), leave the value as it was."""
-        n = 0
-        while isinstance(t, tuple) and t and t[0] == "mut" and t[1][0] == "mut" and n < 8:
-            n += 1
-            outer, inner = t[2], t[1][2]
-            lo = outer[1].rsplit("::", 1)[-1] if outer[0] == "call" and isinstance(outer[1], str) else None
-            li = inner[1].rsplit("::", 1)[-1] if inner[0] == "call" and isinstance(inner[1], str) else None
-            base = t[1][1]
-            if lo == "pop" and li == "push" and not outer[2] and len(inner[2]) == 1:
-                t = base
-                continue
-            if lo == "remove" and li == "insert" and len(outer[2]) == 1 and len(inner[2]) == 2 and outer[2][0] == inner[2][0]:
-                k = outer[2][0]
-                absent = False
-                for cnd, pol in conds:
-                    h = q.as_has(cnd)
-                    if h is not None and not pol and h[0] == base and h[1] == k:
-                        absent = True
-                if absent:
-                    t = base
+        """insert(k, v) then remove(k) on a map that did not have k, and push(c) then pop(), leave the value as it was.  Effects on
+        different fields of a shared struct commute, so the pairs are looked for field by field."""
+        chain = []
+        base = t
+        while isinstance(base, tuple) and base and base[0] == "mut" and len(chain) < 16:
+            chain.append((base[2], tuple(base[3]) if len(base) > 3 else ()))
+            base = base[1]
+        chain.reverse()                 # oldest effect first
+        paths = {p for _, p in chain}
+        if any(a != b and a == b[:len(a)] for a in paths for b in paths):
+            return t                    # an effect on a whole value and one on a part of it do not commute
+        left = []
+        for path in sorted(paths):
+            place = base
+            for f in path:
+                place = terms.mk_field(place, f)
+            stack = []
+            for eff, p in chain:
+                if p != path:
                     continue
-            break
-        return t
+                l = eff[1].rsplit("::", 1)[-1] if eff[0] == "call" and isinstance(eff[1], str) else None
+                top = stack[-1] if stack else None
+                lt = top[1].rsplit("::", 1)[-1] if top is not None and top[0] == "call" and isinstance(top[1], str) else None
+                if l == "pop" and not eff[2] and lt == "push" and len(top[2]) == 1:
+                    stack.pop()
+                    continue
+                if l == "remove" and len(eff[2]) == 1 and lt == "insert" and len(top[2]) == 2 and top[2][0] == eff[2][0] and len(stack) == 1:
+                    k = eff[2][0]
+                    if any(q.as_has(cnd) is not None and not pol and q.as_has(cnd)[1] == k and q.as_has(cnd)[0] in (place, base) for cnd, pol in conds):
+                        stack.pop()
+                        continue
+                stack.append(eff)
+            left += [(e, path) for e in stack]
+        if not left:
+            return base
+        if len(left) == len(chain):
+            return t
+        out = base
+        for eff, path in left:
+            out = ("mut", out, eff, path)
+        return out
 
     def child_of(self, a):
         return a[self.tree_i]
@@ -322,6 +340,8 @@ def run(prog, rep):
             if out is not None:
                 out = nz(partial.simplify(vs.unframe(out)))
                 for cs, leaf in leaves(out):
+                    if any((c_, not p_) in cs for c_, p_ in cs):
+                        continue                      # the same test with both outcomes: no execution takes this path
                     pcs = [("if", c_, p_) for c_, p_ in cs]
                     val = nz(terms.assume(full, pcs))
                     lv = leaves(val)
